@@ -12,6 +12,7 @@ import Driver.Lock
 import Driver.Api
 import Driver.Cron
 import Driver.Stamp
+import Driver.Resolver
 /- line-protocol oracle: `driver <mode>` reads stdin, writes one answer per request -/
 open Driver
 
@@ -61,6 +62,9 @@ def main (args : List String) : IO UInt32 := do
     return 0
   | ["stamp"] =>
     for l in lines do out.putStrLn (Stamp.runLine l)
+    return 0
+  | ["resolver"] =>
+    for l in lines do out.putStrLn (Resolver.runLine l)
     return 0
   | _ =>
     IO.eprintln "usage: driver sched|cycle|auth"
